@@ -698,3 +698,8 @@ def run(ctx):
     ctx.guard(r02_5)
     ctx.guard(r02_4)
     ctx.guard(r02_6)
+    # "p being the solver's advertised strong order": the Taylor comparison above is for scalar SDEs, where every noise
+    # is commutative; for general noise the term of weight 1 contains Levy areas a step that only sees dW cannot produce,
+    # so an advertised order above the one established for that (scheme, noise type) fails this clause (rule of C01)
+    from . import c01
+    ctx.guard(c01.r01_4)
